@@ -23,8 +23,15 @@ theorem runTo_todo (d : Doc V E) (cfg : Cfg) (sh : Shared V E) (t : Thread V E) 
   unfold runTo
   simp only
   cases (advP d cfg sh p).1 with
-  | enter T r k => simp [applyAdv]
+  | enter T r k => simp only [applyAdv]; split <;> simp
   | fin res => exact finish_todo t res
+
+theorem startLoad_todo (d : Doc V E) (cfg : Cfg) (sh : Shared V E) (t : Thread V E) (r : Nat) (p : Prog V E) :
+    (startLoad d cfg sh t r p).2.todo = t.todo ∧ (startLoad d cfg sh t r p).2.ctl ≠ .done := by
+  unfold startLoad
+  split
+  · simp
+  · exact runTo_todo d cfg sh t p
 
 theorem afterLookup_todo (d : Doc V E) (cfg : Cfg) (sh : Shared V E) (t : Thread V E) (T r : Nat) (k : Res V E → Prog V E)
     (T' : Nat) (res : Res V E) :
@@ -35,9 +42,9 @@ theorem afterLookup_todo (d : Doc V E) (cfg : Cfg) (sh : Shared V E) (t : Thread
     simp only
     split
     · simp
-    · exact runTo_todo d cfg sh _ _
-  | err e => exact runTo_todo d cfg sh _ _
-  | oof => exact runTo_todo d cfg sh _ _
+    · exact startLoad_todo d cfg sh _ _ _
+  | err e => exact startLoad_todo d cfg sh _ _ _
+  | oof => exact startLoad_todo d cfg sh _ _ _
 
 theorem stepT_busy {d : Doc V E} {cfg : Cfg} {i : Nat} {sh sh' : Shared V E} {t t' : Thread V E}
     (hs : stepT d cfg i sh t = some (sh', t')) (hc : t.ctl ≠ .start) : t'.todo = t.todo ∧ t'.ctl ≠ .done := by
@@ -72,10 +79,16 @@ theorem stepT_busy {d : Doc V E} {cfg : Cfg} {i : Nat} {sh sh' : Shared V E} {t 
     simp only [stepT] at hs
     split at hs
     · split at hs
-      · exact fin _ hs (runTo_todo d cfg _ _ _)
+      · exact fin _ hs (startLoad_todo d cfg _ _ _ _)
       · exact fin _ hs (by simp)
       · exact fin _ hs (afterLookup_todo d cfg sh _ T r k _ _)
-    · exact fin _ hs (runTo_todo d cfg sh _ _)
+    · exact fin _ hs (startLoad_todo d cfg sh _ _ _)
+  | logging T r k =>
+    simp only [stepT] at hs
+    exact fin _ hs (by simp)
+  | loading r p =>
+    simp only [stepT] at hs
+    exact fin _ hs (runTo_todo d cfg sh _ _)
   | waiting T r k =>
     simp only [stepT] at hs
     split at hs
